@@ -196,7 +196,12 @@ def long_case(case, res):
     for sv in (1000.004, -2000.01, np.array([1500.01, -800.005]), N // 2 + 0.002):
         svs.append((sv, (sv / z.sample_rate).to(u.ms)))
         svs.append((sv, sv))
+    # shifts that are exact single-precision numbers, passed AS float32 (the delay must not be degraded to ~4 digits less)
+    svs += [(1000.5, np.float32(1000.5)), (np.array([1500.25, -800.5]), np.array([1500.25, -800.5], dtype=np.float32)),
+            (-2047.75, np.float32(-2047.75))]
     for sv, sarg in svs:
+        if isinstance(sarg, (np.float32, np.ndarray)) and getattr(sarg, "dtype", None) == np.float32:
+            res.hits["long signal, float32 shift"] += 1
         out = pb.time_shift(z, sarg)
         if isinstance(sarg, u.Quantity):
             res.hits["long signal, Quantity shift slightly off a whole sample"] += 1
@@ -492,7 +497,7 @@ def main(argv=None):
         PID, gen_cases=gen_cases, check_case=check_case, describe=describe,
         required_hits=["buffer overwritten between calls", "zero-fill rows checked", "length-1 shift axis broadcast over a longer sample axis",
                        "shift array with fewer axes than the sample shape", "|s| >= N (all zero)", "crop to empty",
-                       "mixed-sign crop", "time Quantity shift", "Quantity unit not reciprocal to the rate unit", "negative zero in a shift array", "argument forms", "long signal, large shift", "long signal, Quantity shift slightly off a whole sample", "too many dims rejected",
+                       "mixed-sign crop", "time Quantity shift", "Quantity unit not reciprocal to the rate unit", "negative zero in a shift array", "argument forms", "long signal, large shift", "long signal, Quantity shift slightly off a whole sample", "long signal, float32 shift", "too many dims rejected",
                        "complex even-N fractional (two Nyquist conventions accepted)",
                        "all-zero shift (identity fast path)"],
         assumptions=["phase ramp is single precision by design: value budget 16*eps32*max|x| (a more accurate implementation passes)",
